@@ -139,9 +139,9 @@ package graph
 //@     invariant out_done: forall k NodeKey :: k in g.nodes ==> g.nodes[k].OutDegree == ite(k in g.edges && seen[k], len(g.edges[k]), 0)
 //@     invariant deps_same: forall k NodeKey :: k in g.nodes && !(k in g.edges && seen[k]) ==> g.nodes[k].Dependencies == old(g.nodes[k].Dependencies)
 //@     invariant indeg: forall k NodeKey :: k in g.nodes ==> g.nodes[k].InDegree == len(g.nodes[k].Dependents)
-//@     invariant dependents_sound: forall k NodeKey, i int :: k in g.nodes && 0 <= i && i < len(g.nodes[k].Dependents) ==>
+//@     invariant dependents_sound by(dependents_sound, cur, s3, reset): forall k NodeKey, i int :: k in g.nodes && 0 <= i && i < len(g.nodes[k].Dependents) ==>
 //@        (g.nodes[k].Dependents[i] in g.edges) && (g.nodes[k].Dependents[i] in g.nodes) && seen[g.nodes[k].Dependents[i]] && occurs(k, g.edges[g.nodes[k].Dependents[i]])
-//@     invariant dependents_complete: forall f NodeKey, i int :: f in g.edges && f in g.nodes && seen[f] && 0 <= i && i < len(g.edges[f]) && (g.edges[f][i] in g.nodes)
+//@     invariant dependents_complete by(dependents_complete, dependents_complete_seen, dependents_complete_cur, cur, s3): forall f NodeKey, i int :: f in g.edges && f in g.nodes && seen[f] && 0 <= i && i < len(g.edges[f]) && (g.edges[f][i] in g.nodes)
 //@        ==> occurs(f, g.nodes[g.edges[f][i]].Dependents)
 //@     invariant match_ok: matchOK(g, M)
 //@     invariant match_inj: matchInj(g, M)
@@ -158,7 +158,7 @@ package graph
 //@        (g.nodes[k].Dependents[i] in g.edges) && (g.nodes[k].Dependents[i] in g.nodes) && (seen[g.nodes[k].Dependents[i]] || g.nodes[k].Dependents[i] == from) && occurs(k, g.edges[g.nodes[k].Dependents[i]])
 //@     invariant dependents_complete_seen by(dependents_complete_seen, dependents_complete, cur, s3): forall f NodeKey, i int :: f in g.edges && f in g.nodes && seen[f] && 0 <= i && i < len(g.edges[f]) && (g.edges[f][i] in g.nodes)
 //@        ==> occurs(f, g.nodes[g.edges[f][i]].Dependents)
-//@     invariant dependents_complete_cur: forall i int :: 0 <= i && i < idx && (tos[i] in g.nodes) ==> occurs(from, g.nodes[tos[i]].Dependents)
+//@     invariant dependents_complete_cur by(dependents_complete_cur, cur, s3): forall i int :: 0 <= i && i < idx && (tos[i] in g.nodes) ==> occurs(from, g.nodes[tos[i]].Dependents)
 //@     invariant cur: from in g.edges && from in g.nodes && !seen[from] && tos == g.edges[from] && fromNode == g.nodes[from]
 //
 // filteredOf(a, b, t): as sets, a = b \ {t}
@@ -377,7 +377,7 @@ package graph
 //@   ghost R fmap[NodeKey]int
 //@   ghost B int
 //@   ensures[C05,C19] graph_unchanged: g.nodes == old(g.nodes) && g.edges == old(g.edges) && wf(g)
-//@   ensures[C05,C19] mirror: mirror(g) || !old(mirror(g))
+//@   ensures[C05,C19] mirror by(deps_mirror_edges, deps_kept, wf, maps): mirror(g) || !old(mirror(g))
 //@   ensures[C05] shape: result == nil || (typeis(result, "*CircularDependencyError") && as(result, "*CircularDependencyError") != nil)
 //@   ensures[C05,C19] reported_path_is_a_cycle by(reported_path_is_a_cycle): result != nil ==> isCycle(g, as(result, "*CircularDependencyError").Path)
 //@   ensures[C05,C19] nil_means_acyclic by(acyclic_after_full_search, acyclic_by_clean_cache, cached_cycle_found_again): result == nil ==> acyclic(g)
